@@ -143,11 +143,6 @@ Proof.
     + destruct ri as [i|e]; [contradiction|]. exact I.
 Qed.
 
-Lemma find_after_move key m l' i :
-  M.move_to_end eqb key m = Some l' -> M.find eqb key (M.l_data l') = Some i ->
-  True.
-Proof. trivial. Qed.
-
 Lemma tie_encode_term_index key g m : Re g m ->
   match LookupEncoder_encode_term_index S key g, M.encode_term_index eqb key m with
   | (Val r, g'), Some (m', r') => r = Z.of_N r' /\ Re g' m'
